@@ -37,7 +37,7 @@ MIN_NONTRIVIAL = 1000
 FIXED_MANTISSAS = [
     "0", "1", "-1", "999.999", "-999.999", "1000", "0.001", "999.9999999999999999999", "1000.000000000000000001",
     "1.5", "1500", "0.1", "3", "7E+5", "123456789", "9999999999999999999999999", "1.234567890123456789012345",
-    "-0.3333333333333333333333333", "1E-7", "25", "-2.50",
+    "-0.3333333333333333333333333", "1E-7", "25", "-2.50", "-0", "0.0", "-0.000", "0E+3", "1.0", "1.000", "1E+3", "10E+2",
 ]
 
 
@@ -58,7 +58,7 @@ def call(rec, sig_prefix, what, case, f):
         return False, None
 
 
-def judge_pair(rec, a, b, full=True):
+def judge_pair(rec, a, b, full=True, derived=True):
     """All operators on one ordered pair."""
     import operator as op
 
@@ -70,6 +70,23 @@ def judge_pair(rec, a, b, full=True):
     call(rec, "arith-raises:+", f"({da}) + ({db})", case, lambda: a + b)
     call(rec, "arith-raises:-", f"({da}) - ({db})", case, lambda: a - b)
     call(rec, "arith-raises:*", f"({da}) * ({db})", case, lambda: a * b)
+    if full and derived:
+        # derived values: the same number reached by two routes (signed zeros, different exponents of one mantissa)
+        o1, r1 = call(rec, "arith-raises:-", f"({da}) - ({db})", case, lambda: a - b)
+        o2, r2 = call(rec, "arith-raises:neg", f"-(({db}) - ({da}))", case, lambda: -(b - a))
+        o3, r3 = call(rec, "arith-raises:*", f"({da}) * ({db})", case, lambda: a * b)
+        o4, r4 = call(rec, "arith-raises:*", f"({db}) * ({da})", case, lambda: b * a)
+        from hdl21.prefix import Prefixed as _P
+
+        if o1 and o2 and isinstance(r1, _P) and isinstance(r2, _P):
+            rec.count("driver.derived-pairs")
+            judge_pair(rec, r1, r2, full=False)
+        if o3 and o4 and isinstance(r3, _P) and isinstance(r4, _P):
+            rec.count("driver.derived-pairs")
+            judge_pair(rec, r3, r4, full=False)
+            z = mk("0", Prefix_UNIT())
+            if mpref.exact(r3) == 0:
+                judge_pair(rec, r3, z, full=False)
     if full:
         call(rec, "arith-raises:neg", f"-({da})", case, lambda: -a)
         call(rec, "arith-raises:abs", f"abs({da})", case, lambda: abs(a))
@@ -118,6 +135,12 @@ def judge_pair(rec, a, b, full=True):
                               case=case)
 
 
+def Prefix_UNIT():
+    from hdl21.prefix import Prefix
+
+    return Prefix.UNIT
+
+
 def mk(number, prefix):
     from hdl21.prefix import Prefixed
 
@@ -142,6 +165,7 @@ def run(ctx, rec):
         mpairs = []
         # (i) the same value written in both prefixes, and neighbours just across the tolerance
         shift = pa.value - pb.value
+        mpairs += [(Decimal("0"), Decimal("-0")), (Decimal("-0.0"), Decimal("0E+2")), (Decimal("1.0"), Decimal("1").scaleb(shift))]
         for m in ("1", "2.5", "-999", "1000"):
             d = Decimal(m)
             same = d.scaleb(shift)
@@ -159,7 +183,7 @@ def run(ctx, rec):
             rec.case(key=key, nontrivial=(pa is not pb or ma != mb),
                      sample={"a": f"{ma}*{pa.name}", "b": f"{mb}*{pb.name}"} if seen % 997 == 0 else None)
             seen += 1
-            judge_pair(rec, a, b)
+            judge_pair(rec, a, b, derived=(not ctx.quick or seen % 3 == 0))
         # every rescaling of one value per pair (21 targets)
         a = mk(rng.choice(fixed), pa)
         for pt in prefixes:
